@@ -90,6 +90,84 @@ CLAIMED = {
             'one inductive step covers histories of any length only if the stated invariant is inductive (it is asserted on the '
             'post-state); clip norm > 0 (and 0 with non-zero updates); exp uninterpreted positive',
             'DESIGN.md C17'),
+    'C02': ('JX', 'symbolic execution of the jit/debug/pmap backends over UNINTERPRETED client programs (init/step/final; step outputs with '
+                  'an uninterpreted NaN flag) and equality with the sequential fold; pmap through an API model (pmap=vmap, sharded=stack, '
+                  'replicated=broadcast) plus the real jax.pmap on forced host devices in replays; donation dataflow; CrossHair over the real '
+                  'backend-selection code with a threading.local model and a symbolic schedule',
+            'Bounded symbolic check: 0..5 clients with 0..3 batches each, 1..4 devices, with/without step results, generator inputs, falsy '
+            'ids: z3 shows every backend yields exactly one result per id whose output and step results equal final(shared, fold(step, '
+            'init, batches)) for ANY client program; padding clients/batches never observable. CrossHair confirms for all interleavings of '
+            'two scripted threads (<=7 scheduling decisions) that each thread sees only its own backend choice, restored on normal and '
+            'exceptional exit.',
+            'real multi-device semantics only in the concrete replay layer (forced CPU devices); client programs are collective-free pure '
+            'functions; thread interleavings at API-call granularity',
+            'DESIGN.md C02'),
+    'C03': ('X', 'CrossHair symbolic execution of the real client_datasets.py (batch, padded_batch, bucket rule, pad_examples) over a '
+                 'list-based numpy model; symbolic row values, dataset size, batch size, bucket count, preprocessor chain',
+            'Bounded symbolic check (N<=6, batch<=4, buckets<=3, 3 preprocessor chains incl. an in-place modifier; bucket rule alone N<=40, '
+            'batch<=12, buckets<=4): CrossHair reports "Confirmed over all paths" for: unpadded rows = preprocessed examples in order, '
+            'full batches except the last, drop_remainder, True-prefix mask, zero padding with unchanged dtype/trailing shape, smallest '
+            'bucket, identical second pass, dataset unchanged.',
+            'np_lite numpy model (validated against numpy each run); counterexamples are replayed with real numpy',
+            'DESIGN.md C03'),
+    'C04': ('X', 'CrossHair on the real ShuffleRepeatBatchView over np_lite with an ORACLE TAPE for randomness (shuffle overwrites the '
+                 'index buffer with the next symbolic tape segment; never branched on)',
+            'Bounded symbolic check (N<=4, batch<=3 and 4..7 with N<=3, epochs None/1/2, steps None/0..4, drop/skip flags): Confirmed over '
+            'all paths: exact batch size, documented batch count, the drawn stream equals the concatenation of the tape segments handed '
+            'out one per window (hence every window is one shuffle result and usage is balanced), cyclic order without shuffling, same '
+            'seed => same stream, also for two interleaved iterators.',
+            'numpy.shuffle contract (returns a permutation; deterministic per seed) assumed; statistical quality outside; N>=1',
+            'DESIGN.md C04'),
+    'C08': ('X', 'CrossHair on the real federated_data/in_memory/sqlite sources over np_lite and a SQL evaluator that interprets the WHERE '
+                 'clause as written; client ids as order-type representatives, slice bounds and subset bits symbolic',
+            'Bounded symbolic check (3 clients, <=2 view operations, nested slices on 2 clients): Confirmed over all paths that in-memory, '
+            'SQLite, subset(in-memory), subset(SQLite) views expose exactly the ids of every requested range/subset (possibly none), same '
+            'count/sizes/examples through clients(), shuffled passes, get_clients (request order), get_client; KeyError outside; '
+            'preprocessors in registration order (client before batch); base unchanged.',
+            'SQL model and np_lite validated against sqlite3/numpy each run (ids a, a\\x00, ab); counterexamples replayed on a real '
+            'SQLite file with bytes ids; zlib/msgpack outside (C16)',
+            'DESIGN.md C08'),
+    'C09': ('X', 'CrossHair on the real run_federated_experiment / checkpoint / save_state sources over a crash-injecting file-system '
+                 'model; crash indices and partial-write length symbolic; replay on a real temporary directory',
+            'Bounded symbolic check (rounds<=3, checkpoint frequency 0..3, keep 1..2, eval frequency 0..2; 1 or 2 crashes at ANY effect or '
+            'loop step, then completion): Confirmed over all paths that the re-run returns the state and final-evaluation file of the '
+            'uninterrupted run, every visible checkpoint is complete and equals the reference state of its round, at most `keep` '
+            'checkpoints remain after every save.',
+            'fs model (atomic rename, durable earlier effects, torn/buffered writes); trace algorithm + model sampler; logging no-ops',
+            'DESIGN.md C09'),
+    'C11': ('J', 'symbolic execution of the quantisers (min/max as fresh variables with defining facts, bounded floor, uniform draws as '
+                 'reals named by key term) and per-coordinate grid/threshold-law/finiteness queries; aggregator keys via observation hooks',
+            'Bounded symbolic check (n<=3(4), levels 2..3(5), 2 clients, 2 rounds): z3 shows each uniform/binary output is a neighbouring '
+            'grid level selected by the threshold u*(hi-lo) <> v-lo (the law equivalent to E[out]=v), in range, fixed on grid/constant '
+            'inputs, finite; TernGrad outputs in {0, +-s} with the same law on the 2.5-sigma clipped input; DRIVE = |x|^2 sign(x)/|x|_1, '
+            'finite incl. zero leaves; aggregators return the weighted mean of the per-client quantised trees with pairwise distinct '
+            'client keys, fresh keys per round and the documented bit increment.',
+            'unbiasedness integral (one uniform variable) outside the solver; arithmetic-coding bit count only in a concrete auxiliary run',
+            'DESIGN.md C11'),
+    'C13': ('X', 'CrossHair on the real client_samplers.py over a free key algebra for jax.random and a seeded-draw model of '
+                 'numpy.RandomState (the permutation behind choice() symbolic per derived seed)',
+            'Bounded symbolic check (1..4 clients, every cohort size, rounds from {0,1,2,5} requested in any order with repeats): '
+            'Confirmed over all paths that sample() at round r returns the draw of (seed, r) over the dataset ids in dataset order '
+            'whatever was sampled before, without repeats, exact ids, pairwise distinct keys, fresh keys per round, restart at r '
+            'reproduces the run; the streaming sampler restarted at r equals rounds r.. of the original (seeds 0 and 3).',
+            'hash collision-freeness outside; numpy object arrays with trailing-zero ids only in real replays',
+            'DESIGN.md C13'),
+    'C15': ('X', 'CrossHair on the real padded_batch_client_datasets / buffered_shuffle(_batch_client_datasets) / federated-data stream '
+                 'functions / RepeatableIterator over np_lite with symbolic permutations and swap draws',
+            'Bounded symbolic check (<=3 clients of 0..3 examples, batch<=3, buckets<=2, streams<=5 items, buffer 1..4): Confirmed over all '
+            'paths: unpadded rows = concatenation in client/example order, full batches except the last (bucket rule), ValueError on '
+            'mismatching preprocessors/features, buffered shuffle emits every item exactly once for EVERY initial permutation and swap '
+            'sequence and is reproducible, non-trivial order reachable, RepeatableIterator replays pass 1 (for-loops and bare next()).',
+            'np_lite; a trailing all-padding batch after empty clients is tolerated; statistical quality outside',
+            'DESIGN.md C15'),
+    'C19': ('X', 'CrossHair on the real downloads.py and the cache branch of cifar100.load_split over fs/network/lzma/SQLite-builder '
+                 'models with symbolic crash points and network faults; replay on a real temporary directory',
+            'Bounded symbolic check (payload empty / < block / 1 block+100 / 2 blocks+100, 1 or 2 crashes at ANY effect, network fault at '
+            'block 0..3): Confirmed over all paths that after every interruption each final cache name is absent or complete, a later '
+            'clean call completes, a complete cache (also an empty file) is reused with zero network calls, validate_file accepts only the '
+            'right size/hash.',
+            'fs model with buffered writers (data < 8 KiB lost on crash before flush), atomic rename; HTTP semantics and sha256 outside',
+            'DESIGN.md C19'),
 }
 
 NOT_APPLICABLE = {
